@@ -722,7 +722,11 @@ func enumerateTerm(tier string, emit func(string)) {
 	}
 }
 
+// termDeadline: the child's own processor time decides (engine.WaitBounded), not the wall: a child that was starved
+// by other work on the machine is waited for until it has had termCPU of processor time or termWallMax has passed.
 const termDeadline = 5 * time.Second
+const termCPU = 3 * time.Second
+const termWallMax = 60 * time.Second
 
 // execTerm runs one history without the mask in a child process of this very
 // binary and reports whether it came back.
@@ -754,8 +758,9 @@ func execTerm(spec string) (res engine.Result) {
 	if p, perr := jsonpath.Parse(path); perr == nil {
 		pk = p.Kind()
 	}
-	select {
-	case <-done:
+	_, back := engine.WaitBounded(cmd.Process.Pid, done, termDeadline, termCPU, termWallMax, func() { res.Hit("term-wait-extended") })
+	switch {
+	case back:
 		var child engine.Result
 		if jerr := json.Unmarshal(out.Bytes(), &child); jerr != nil {
 			res.Fail(fmt.Sprintf("op=%s path=%s law=returns why=process-died", kind, pk),
@@ -765,7 +770,7 @@ func execTerm(spec string) (res engine.Result) {
 		}
 		res.Failures = append(res.Failures, child.Failures...)
 		res.Outcome = "returned: " + child.Outcome
-	case <-time.After(termDeadline):
+	default:
 		_ = cmd.Process.Kill()
 		<-done
 		res.Fail(fmt.Sprintf("op=%s path=%s law=returns shared=yes", kind, pk),
